@@ -544,6 +544,11 @@ func (e *Enc) applyContract(fr *Frame, ct *FuncContract, fn *ssa.Function, sig *
 		t := e.evalBool(post, en.E)
 		e.assert(Implies(guard, t))
 	}
+	for _, en := range ct.TrustedEns {
+		t := e.evalBool(post, en.E)
+		e.assert(Implies(guard, t))
+		e.trusted[who+": "+en.Src] = true
+	}
 	if ct.Trusted {
 		e.trusted[who] = true
 	}
